@@ -1169,7 +1169,7 @@ func (sp *simProxy) gauge(suffix string) uint64 {
 }
 
 func (sp *simProxy) waitSlotsLoaded(rounds uint64) bool {
-	for t := 0; t < 1000; t++ {
+	for t := 0; t < 3500; t++ { // about ten seconds at most: only a very busy machine needs more than a few milliseconds
 		if sp.counter("upstream.slots_refresh.success_total") >= rounds {
 			return true
 		}
@@ -1186,11 +1186,18 @@ type simClient struct {
 }
 
 func dialProxy(addr string) *simClient {
-	c, err := net.DialTimeout("tcp", addr, time.Second)
-	if err != nil {
-		die("dial proxy: %v", err)
+	// the processor is known to be listening; on a very busy machine a connect may still take longer than a second
+	var c net.Conn
+	var err error
+	for try := 0; try < 6; try++ {
+		c, err = net.DialTimeout("tcp", addr, 2*time.Second)
+		if err == nil {
+			return &simClient{c: c, br: bufio.NewReaderSize(c, 64<<10)}
+		}
+		time.Sleep(50 * time.Millisecond)
 	}
-	return &simClient{c: c, br: bufio.NewReaderSize(c, 64<<10)}
+	die("dial proxy: %v", err)
+	return nil
 }
 
 // send writes the bytes in the given fragment sizes (nil: one write).
